@@ -12,6 +12,9 @@ func getTypeFromSchema(schema *spec.Schema) (typeName string, isArray bool) {
 	if len(refStr) > 0 {
 		return refStr, false
 	}
+	if len(schema.Type) == 0 {
+		return "", false
+	}
 	typeName = schema.Type[0]
 	if typeName == ArrayType {
 		typeName, _ = getSchemaType(&schema.Items.Schema.SchemaProps)
